@@ -938,7 +938,6 @@ class Qobj:
             raise TypeError("expm is only valid for square operators")
         return Qobj(_data.logm(self._data),
                     dims=self._dims,
-                    isherm=self._isherm,
                     copy=False)
 
     def check_herm(self) -> bool:
